@@ -23,6 +23,7 @@ import pickle as _pickle
 import re
 import sqlite3
 
+from . import devices
 from .devices import SimTable, SimStore
 
 
@@ -73,7 +74,8 @@ class World(object):
 class Recipe(object):
     def __init__(self, name, nsrc, variants, group, stream=None, build=(),
                  hdr_ctor=False, items=False, multi=False, temp=False,
-                 c01=True, profile=None, stack=True, rect=False):
+                 c01=True, profile=None, stack=True, rect=False,
+                 fails=False):
         self.name = name
         self.nsrc = nsrc
         self.variants = variants
@@ -88,6 +90,7 @@ class Recipe(object):
         self.profile = profile
         self.stackable = stack and nsrc == 1 and not multi and not items
         self.rect = rect
+        self.fails = fails      # never completes a pass (a bad argument)
 
 
 RECIPES = {}
@@ -228,7 +231,7 @@ def _from_json(e, w, lines=False):
                       header=hdr)
 
 
-def _from_dicts_gen(e, w, **kw):
+def _from_dicts_gen(e, w, closefault=False, **kw):
     src = w.s[0]
     it = iter(src)
     try:
@@ -237,8 +240,15 @@ def _from_dicts_gen(e, w, **kw):
         hdr = []
 
     def gen():
-        for r in it:
-            yield dict(zip(hdr, r))
+        try:
+            for r in it:
+                yield dict(zip(hdr, r))
+        except GeneratorExit:
+            if closefault:
+                # a source that fails when it is shut down early (a cursor
+                # whose result set was not drained)
+                raise devices.SimCloseFault('closed before it was drained')
+            raise
     return e.fromdicts(gen(), **kw)
 
 
@@ -412,6 +422,17 @@ R('cat-after-short', 2,
                       e.head(w.s[0], 1), missing='M'),
    lambda e, w: e.stack(e.head(w.s[0], 1), w.s[1], missing='M')],
   'transform.basics', stream=('map', 2))
+# field selections that fail after part of them matched (a misspelt name, a
+# name given twice): the evaluation fails, the inputs stay as they were
+R('bad-selection', 2,
+  [lambda e, w: e.cut(w.s[0], 'a', 'nosuch'),
+   lambda e, w: e.cutout(w.s[0], 'b', 'b', 'nosuch'),
+   lambda e, w: e.sort(w.s[0], ('a', 'nosuch')),
+   lambda e, w: e.join(w.s[0], w.s[1], key=('a', 'nosuch')),
+   lambda e, w: e.movefield(e.cut(w.s[0], 'b', 'a', 'nosuch'), 'a', 0),
+   lambda e, w: e.melt(w.s[0], 'a', variables=['b', 'nosuch']),
+   lambda e, w: e.lookup(w.s[0], ('a', 'nosuch'), 'b') and w.s[0]],
+  'util.base', c01=False, stack=False, fails=True)
 R('stack', 2, [lambda e, w: e.stack(w.s[0], w.s[1]),
                lambda e, w: e.stack(w.s[0], w.s[1], missing='M',
                                     trim=False, pad=False),
@@ -1148,6 +1169,8 @@ V('pivot', lambda e, w: e.pivot(w.s[0], 'b', 'a', 'c', sum))
 V('unflatten', lambda e, w: e.unflatten(e.values(w.s[0], 'c'), 1),
   lambda e, w: e.unflatten(w.s[0], 'b', 2))
 V('capture',
+  # (no fill: a value that does not match is an error)
+  lambda e, w: e.capture(w.s[0], 'e', r'(\d)', ['n']),
   lambda e, w: e.capture(w.s[0], 'e', r'(\d)', ['n'], fill=['-']),
   lambda e, w: e.capture(w.s[0], 'b', '(x)(Y)?', flags=re.I, fill=[0, 0]))
 V('split', lambda e, w: e.split(w.s[0], 'e', ' '),
@@ -1212,6 +1235,24 @@ V('groupselectmin', lambda e, w: e.groupselectmin(w.s[0], 'b', 'c'))
 V('sort', lambda e, w: e.sort(w.s[0], 0),
   lambda e, w: e.sort(w.s[0], ('a', 'c'), reverse=True, buffersize=2),
   lambda e, w: e.sort(w.s[0], reverse=True))
+
+
+# key values of one type that has no order of its own (dicts, complex
+# numbers): they tie, and ties keep their input order on every pass
+def f_as_dict(v):
+    return {'k': v}
+
+
+def f_as_complex(v):
+    return complex(len(str(v)), 1)
+
+
+V('sort',
+  lambda e, w: e.sort(e.convert(w.s[0], 'c', f_as_dict), 'c'),
+  lambda e, w: e.sort(e.convert(w.s[0], 'b', f_as_complex), ('b', 'c'),
+                      buffersize=2),
+  lambda e, w: e.sort(e.convert(w.s[0], 'a', f_as_dict), 'a', buffersize=2,
+                      cache=False))
 V('mergesort',
   lambda e, w: e.mergesort(w.s[0], w.s[1], w.s[0], key='a'),
   lambda e, w: e.mergesort(w.s[0], key='c'),
@@ -1223,6 +1264,9 @@ V('fromcsv',
                          delimiter=';'))
 V('fromtext', lambda e, w: _from_text(e, w, strip=False),
   lambda e, w: _from_text(e, w, encoding='utf-8', errors='replace'))
+V('fromdicts-gen',
+  lambda e, w: _from_dicts_gen(e, w, closefault=True, header=['a', 'c']),
+  lambda e, w: _from_dicts_gen(e, w, closefault=True))
 V('fromdicts-gen', lambda e, w: _from_dicts_gen(e, w, sample=1),
   lambda e, w: _from_dicts_gen(e, w, header=['c'], sample=3))
 V('fromdicts-list', lambda e, w: _from_dicts_list(e, w, sample=1))
